@@ -153,7 +153,8 @@ CLAIMS = {
              "lock, not the read lock), is proved separately (Klev/HeadRead.lean): whatever publishes land between the two looks, in the source "
              "order it returns the sequential answer of one of the two states and never steps over a message with the key "
              "(consumeByKey_two_looks, consumeByKey_no_skip); in the other order it does neither (consumeByKey_other_order_counterexample = "
-             "defect D22: found, replayed on the real code, repaired). "
+             "defect D22: found, replayed on the real code, repaired); likewise GetByTime past every message with a head that was empty when looked at "
+             "(getByTime_empty_head, defect D21); how often each read looks at its index is a regenerated fact (reads_look_once). "
              "That the source follows this discipline is a set of regenerated go/ast facts (whole read calls under the read lock; every writer "
              "access in Publish/Delete/NextOffset/Sync under the writer lock, following the statement structure; Sync's fsync and reported "
              "offset in one critical section; rollover swap under the write lock; ConsumeByKey reads the next offset once, before the keys) and "
